@@ -152,7 +152,11 @@ func genXport(r *rng, seed uint64, focus, arm string) *plan.Plan {
 			if r.p(0.6) {
 				t.Acts = []plan.UpAction{{Kind: "truncate_udp", DelayUs: delay}}
 				k2 := []string{"reply", "reply", "reply", "silent", "fin", "rst"}[r.intn(6)]
-				t.Acts = append(t.Acts, plan.UpAction{Kind: k2, DelayUs: r.i64(50, 300_000)})
+				d2 := r.i64(50, 300_000)
+				if k2 == "reply" && r.p(0.15) {
+					d2 = r.i64(6_050_000, 7_000_000) // later than the TCP leg's 6 s I/O limit
+				}
+				t.Acts = append(t.Acts, plan.UpAction{Kind: k2, DelayUs: d2})
 			}
 		case "C14":
 			if arm == "faults" {
